@@ -29,6 +29,7 @@ type vxEvents struct {
 	agent     *Agent
 	reenter   bool
 	alsoStop  []transactionID // re-entrant handler also stops these IDs (terminators racing at the hand-over point)
+	hook      func(Event)     // further activity overlapping the call in progress (runs inside the handler, outside the mutex)
 }
 
 func (r *vxEvents) handle(e Event) {
@@ -41,6 +42,9 @@ func (r *vxEvents) handle(e Event) {
 		for _, id := range r.alsoStop {
 			_ = r.agent.Stop(id)
 		}
+	}
+	if r.hook != nil && !held {
+		r.hook(e)
 	}
 }
 
@@ -272,6 +276,70 @@ func vh_C13_collect() {
 		vxAssert(e.Message == nil, "timeout events carry no message")
 	}
 	vxCheckPost(a, &slots, nil, false, "Collect")
+}
+
+// vh_C13_collect_overlap: a second Collect (preceded by a Start) overlaps the first one at its hand-over
+// point — issued from inside the first timeout's handler, which is where another goroutine's Collect can
+// run between the first one's critical section and its event delivery ("safe to call Collect
+// concurrently").  Serial specification: the outer critical section times out everything due at t; then
+// Start registers the new ID; then the inner Collect times out what is due at t2, the new ID included.
+func vh_C13_collect_overlap() {
+	rec := &vxEvents{}
+	a, slots, closed := vxAgentState(rec)
+	vxAssume(!closed)
+	t, t2, nd := vxTime(), vxTime(), vxTime()
+	nid := vxID()
+	for i := range slots {
+		vxAssume(!slots[i].present || slots[i].id != nid)
+	}
+	fired := false
+	var serr, cerr error
+	rec.hook = func(Event) {
+		if fired {
+			return
+		}
+		fired = true
+		serr = a.Start(nid, nd)
+		cerr = a.Collect(t2)
+	}
+	vxGuardsOn()
+	err := a.Collect(t)
+	vxGuardsOff()
+	vxAssert(err == nil, "Collect succeeds on an open agent")
+	expected := 0
+	for i := range slots {
+		due1 := slots[i].present && slots[i].deadline.Before(t)
+		due2 := slots[i].present && !due1 && slots[i].deadline.Before(t2)
+		if due1 {
+			expected++
+		}
+		if due1 || (fired && due2) {
+			vxAssert(vxEmitted(rec, slots[i].id, ErrTransactionTimeOut) == 1, "overlapping Collects: every due transaction gets exactly one timeout")
+			slots[i].present = false
+		} else if slots[i].present {
+			vxAssert(vxEmitted(rec, slots[i].id, ErrTransactionTimeOut) == 0, "overlapping Collects: a transaction that is not due gets no timeout")
+		}
+		if fired && due2 {
+			expected++
+		}
+	}
+	vxAssert(fired == (expected > 0), "the overlapping activity runs inside the first handler call")
+	if !fired {
+		return
+	}
+	vxReach("overlap")
+	vxAssert(serr == nil && cerr == nil, "the overlapping Start and Collect succeed")
+	var extra *vxSlot
+	if nd.Before(t2) {
+		vxReach("new-id-timed-out")
+		expected++
+		vxAssert(vxEmitted(rec, nid, ErrTransactionTimeOut) == 1, "overlapping Collects: the transaction started in between gets exactly one timeout")
+	} else {
+		vxAssert(vxEmitted(rec, nid, ErrTransactionTimeOut) == 0, "overlapping Collects: the transaction started in between is not timed out early")
+		extra = &vxSlot{present: true, id: nid, deadline: nd}
+	}
+	vxAssert(len(rec.list) == expected, "overlapping Collects emit nothing else")
+	vxCheckPost(a, &slots, extra, false, "overlapping Collects")
 }
 
 func vh_C13_sethandler_close() {
